@@ -1,5 +1,5 @@
 import AutoVerif.Drv.Codec
-import AutoVerif.Spec.C17
+import AutoVerif.Spec.C17Plugin
 open Lean AutoVerif.Codec
 namespace AutoVerif.C17
 
@@ -9,13 +9,22 @@ def showStr (s : Str) : String := String.ofList (s.map Char.ofNat)
 def cfgOf (j : Json) : R Cfg := do
   pure { lockout := ← intF j "lockout", minConfs := ← intF j "minConfs" }
 
-def opOf (j : Json) : R Op := do
+def strsF (j : Json) (k : String) : R (List Str) := do
+  pure ((← listOf asStr (fieldD j k .null)).map strOf)
+
+/-- an operation of the input; `plugin` = accepts go through `ShouldAcceptFinalizedReport` -/
+def popOf (plugin : Bool) (j : Json) : R POp := do
   let t ← strF j "t"
-  let key := strOf (← strF j "key")
+  let key := strOf (← asStr (fieldD j "key" (.str "")))
   match t with
-  | "a" => pure (.accept key)
-  | "p" => pure (.perform { key := key, transmit := strOf (← strF j "tb"), confs := ← intF j "confs" })
-  | "s" => pure (.stale { key := key, transmit := strOf (← strF j "tb"), confs := ← intF j "confs" })
+  | "a" => pure (if plugin then .acceptReport [key] else .co (.accept key))
+  | "p" => pure (.co (.perform { key := key, transmit := strOf (← strF j "tb"), confs := ← intF j "confs" }))
+  | "s" => pure (.co (.stale { key := key, transmit := strOf (← strF j "tb"), confs := ← intF j "confs" }))
+  | "A" => pure (.acceptReport (← strsF j "keys"))
+  | "h" => pure (.head (strOf (← strF j "block")) (← strsF j "active") (← strsF j "ids"))
+  | "o" => pure .observe
+  | "x" => pure (.transmit (← strsF j "keys"))
+  | "r" => pure (.report (strOf (← strF j "block")) (← strsF j "ids"))
   | _ => throw s!"unknown op type {t}"
 
 def pairOf (j : Json) : R (Nat × Nat) := do
@@ -31,14 +40,20 @@ def pendOf (j : Json) : R (Bool × Bool) := do
 def obsOf (j : Json) : R Obs := do
   pure { pending := ← listF pendOf j "pending", confirmed := ← listF asBool j "confirmed" }
 
+def poutOf (j : Json) : R POut := do
+  pure { flag := ← asBool (fieldD j "flag" (.bool false)), err := ← asBool (fieldD j "err" (.bool false)),
+         block := strOf (← asStr (fieldD j "block" (.str ""))), ids := ← strsF j "ids",
+         pblock := strOf (← asStr (fieldD j "pblock" (.str ""))), pick := ← strsF j "pick" }
+
 /-- a run: ops from the input, times / probe points / answers from the implementation side -/
-def runOf (jin jimpl : Json) : R (Run × List Obs) := do
-  let ops ← listF opOf jin "ops"
+def runOf (plugin : Bool) (jin jimpl : Json) : R (PRun × List Obs × List POut) := do
+  let ops ← listF (popOf plugin) jin "ops"
   let times ← listF asNat jimpl "times"
   if times.length ≠ ops.length then throw "times/ops length mismatch"
   let points ← listF pairOf jimpl "points"
   let obs ← listF obsOf jimpl "obs"
-  pure ({ ops := times.zip ops, points := points }, obs)
+  let outs ← listF poutOf jimpl "outs"
+  pure ({ ops := times.zip ops, points := points }, obs, outs)
 
 def showObs (o : Obs) : String :=
   let p := String.join (o.pending.map fun (a, e) => if e then "E" else if a then "1" else "0")
@@ -61,21 +76,49 @@ def isReorg (h : List Op) : Bool :=
       | _ => false
     | _ => false
 
+def showOut (o : POut) : String :=
+  s!"flag={o.flag} err={o.err} block={showStr o.block} ids={o.ids.map showStr} pblock={showStr o.pblock} pick={o.pick.map showStr}"
+
+/-- agreement on operation answers: everything equal, the observation's pick admissible -/
+def outsAgree (ops : List POp) (want got : List POut) : Bool :=
+  decide (want.length = got.length) && decide (ops.length = got.length) &&
+    ((ops.zip (want.zip got)).all fun x => outOk x.1 x.2.1 x.2.2)
+
+def firstOutDiff (opss : List (List POp)) (want got : List (List POut)) : String :=
+  match ((opss.zip (want.zip got)).zipIdx).find? (fun x => !outsAgree x.1.1 x.1.2.1 x.1.2.2) with
+  | some ((ops, w, g), i) =>
+    match ((ops.zip (w.zip g)).zipIdx).find? (fun x => !outOk x.1.1 x.1.2.1 x.1.2.2) with
+    | some ((_, wo, go), k) => s!"run {i} op {k}: model [{showOut wo}] impl [{showOut go}]"
+    | none => s!"run {i}: {w.length} model answers vs {g.length} impl answers"
+  | none => ""
+
 def handle (input impl : Json) : R Reply := do
-  let cfg ← cfgOf (← field input "cfg")
+  let jcfg ← field input "cfg"
+  let plugin := (← asStr (fieldD input "via" (.str "coord"))) == "plugin"
+  let cfg0 ← cfgOf jcfg
+  let cfg := if plugin then offchainCfg (cfg0.lockout / 1000000) cfg0.minConfs else cfg0
   let probes := (← listF asStr input "probes").map strOf
   let ckeys := (← listF asStr input "ckeys").map strOf
   let jruns ← asList (← field input "runs")
   let jimpl ← asList (← field impl "runs")
   if jruns.length ≠ jimpl.length then throw "runs length mismatch"
-  let pairs ← (jruns.zip jimpl).mapM fun (a, b) => runOf a b
-  let runs := pairs.map (·.1)
-  let got := pairs.map (·.2)
+  let triples ← (jruns.zip jimpl).mapM fun (a, b) => runOf plugin a b
+  let pruns := triples.map (·.1)
+  let runs := pruns.map PRun.toRun
+  let got := triples.map (·.2.1)
+  let gotOuts := triples.map (·.2.2)
   let want := runs.map (modelRun cfg probes ckeys)
-  let agree := decide (got = want)
-  let sm := spec cfg probes ckeys runs want
-  let si := spec cfg probes ckeys runs got
+  let wantOuts := pruns.map fun r => (pouts cfg PState.init r.ops).1
+  let agreeObs := decide (got = want)
+  let opss := pruns.map fun r => r.ops.map (·.2)
+  let agreeOuts := decide (wantOuts.length = gotOuts.length) && ((opss.zip (wantOuts.zip gotOuts)).all fun x => outsAgree x.1 x.2.1 x.2.2)
+  let agree := agreeObs && agreeOuts
+  let sm := pspec cfg probes ckeys pruns want wantOuts
+  let si := pspec cfg probes ckeys pruns got gotOuts
   let base := match runs with
+    | r :: _ => r.ops.map (·.2)
+    | [] => []
+  let pbase : List POp := match pruns with
     | r :: _ => r.ops.map (·.2)
     | [] => []
   let g := ghost cfg base
@@ -83,7 +126,9 @@ def handle (input impl : Json) : R Reply := do
   let orders := (applicable.map fun r => r.ops.map (·.2)).eraseDups
   let inRegime := runs.any fun r => r.points.any fun p => regime cfg (r.ops.take p.1) p.2 probes
   let allCanon := base.all opCanon && probes.all probeCanon
+  let observes := (wantOuts.map fun l => l.filter fun o => !o.pblock.isEmpty || !o.ids.isEmpty).flatten
   let tags :=
+    (if plugin then ["via-plugin"] else ["via-coordinator"]) ++
     (if inRegime then ["regime"] else []) ++
     (if !allCanon then ["noncanonical"] else []) ++
     (if allCanon && !inRegime then ["out-of-window"] else []) ++
@@ -96,10 +141,16 @@ def handle (input impl : Json) : R Reply := do
     (if !acceptFirst base then ["log-before-accept"] else []) ++
     (if (g.contribs.map (·.2.check)).eraseDups.length ≥ 2 then ["check-blocks>=2"] else []) ++
     (if want.any (fun w => w.any fun o => o.pending.any (·.2)) then ["pending-error"] else []) ++
+    (if pbase.any (fun op => match op with | POp.observe => true | _ => false) then ["observe"] else []) ++
+    (if pbase.any (fun op => match op with | POp.report _ _ => true | _ => false) then ["report"] else []) ++
+    (if pbase.any (fun op => match op with | POp.transmit _ => true | _ => false) then ["transmit"] else []) ++
+    (if pbase.any (fun op => match op with | POp.acceptReport ks => decide (ks.length ≥ 2) | _ => false) then ["multi-key-report"] else []) ++
+    (if (wantOuts.map fun l => (l.map (·.ids)).eraseDups.length).any (· ≥ 3) then ["observe-answers-change"] else []) ++
+    (if observes.isEmpty then [] else ["observe-nonempty"]) ++
     (if cfg.minConfs > 0 then ["minconfs>0"] else [])
   pure { agree := agree, specModel := sm, specImpl := si,
-         diff := if agree then "" else firstDiff want got,
-         fail := if si then "" else explain cfg probes ckeys runs got,
+         diff := if agree then "" else if !agreeObs then firstDiff want got else firstOutDiff opss wantOuts gotOuts,
+         fail := if si then "" else pexplain cfg probes ckeys pruns got gotOuts,
          nontrivial := decide (orders.length ≥ 2) && !g.logged.isEmpty,
          tags := tags }
 
